@@ -317,7 +317,7 @@ def finding_zone_shard(arg):
 
 def run(ctx):
     nsh = 12
-    per = ctx.n(450, 8400)
+    per = ctx.n(450, 14000)
     res = Result()
     for impl in ('c', 'py'):
         n = per if impl == 'c' else per // 3
